@@ -1464,6 +1464,28 @@ class _NotApplicable(Exception):
     pass
 
 
+def feasible(conds, limit=64):
+    """is the conjunction satisfiable as far as comparisons of one expression with literals can tell?
+    conjunctions are flattened, disjunctions case-split (bounded)"""
+    alts = [[]]
+    for c in conds:
+        if c[0] == 'op' and c[1] == 'and':
+            for a in alts:
+                a.extend(c[2:])
+        elif c[0] == 'op' and c[1] == 'or':
+            new = []
+            for a in alts:
+                for d in c[2:]:
+                    new.append(a + ([*d[2:]] if d[0] == 'op' and d[1] == 'and' else [d]))
+            alts = new
+            if len(alts) > limit:
+                return True
+        else:
+            for a in alts:
+                a.append(c)
+    return any(prune_conditions(a) is not None for a in alts)
+
+
 def prune_conditions(conds):
     """conditions of one path -> simplified tuple, or None when contradictory.  Only comparisons of one and the
     same expression with literals are reasoned about (a finite set of orderings): equalities exclude other
